@@ -839,6 +839,351 @@ theorem addressing_stable_thermostat (pt : Product) (w : World) (hw : WorldOK pt
             have : ¬ p.1 = i := by rw [hpt]; exact fun h => hi h.symm
             simp [hp, this, hp2]
 
+/-! ### addressing of ANY existing parameter is stable over histories: objects kept by the client
+
+`Parameter.update()` never touches `_index` (nor `offset`, nor the owning device): once created, a
+parameter object addresses the same slot for every later report, whatever start / count / hole
+pattern / number of mixers or thermostats those reports have.  In the model: whatever is stored
+under an existing name keeps everything but its triple.  The only way a name leaves a dataset is an
+undefined thermostat-profile slot (the name then holds None; the kept object still addresses slot 0). -/
+
+def GoodM (pt : Product) (m : Nat) (ds : DS) : Prop := ∀ x ∈ ds, EntryOK pt x ∧ OnMixer m x
+
+theorem mixer_class (pt : Product) (m : Nat) {old : DS} (hgood : GoodM pt m old)
+    (d : Gen.Desc) (pos : Nat) (tr' : P2.Triple) (hd : (tableOf pt .mixer)[pos]? = some d)
+    (e0 : Entry) (hf : find old d.name = some e0) : sameClass e0 (mkMixer m d pos tr') = true := by
+  obtain ⟨hm0, hn0⟩ := find_some hf
+  obtain ⟨⟨d0, hd0, hdn0, hsw0, _⟩, hk0, _⟩ := hgood e0 hm0
+  rw [hk0] at hd0
+  have hidx : e0.index = pos := name_index_bijection pt .mixer hd0 hd (by rw [hdn0, hn0])
+  rw [hidx, hd] at hd0
+  cases hd0
+  simp [sameClass, mkMixer, newEntry, hk0, hsw0]
+
+theorem mixerBlock_stable (pt : Product) (m : Nat) (items : P2.Params) (ds : DS) (hgood : GoodM pt m ds)
+    (e : Entry) (hf : find ds e.name = some e) :
+    GoodM pt m (mixerBlock pt m items ds) ∧ ∃ y, find (mixerBlock pt m items ds) e.name = some { e with triple := y } := by
+  constructor
+  · exact applyItems_inv (P := fun x => EntryOK pt x ∧ OnMixer m x) (fun e t h => h)
+      (fun d pos t' hd => ⟨entryOK_new (tr t') m 0 hd, rfl, rfl, rfl⟩) hgood items ds hgood
+  · exact applyItems_stable (fun _ _ _ => rfl)
+      (fun d pos tr' hd e0 hf0 => mixer_class pt m hgood d pos tr' hd e0 hf0) e hf items ds ⟨e.triple, hf⟩
+
+theorem applyBlocks_mixer_stable (pt : Product) (m : Nat) (e : Entry) :
+    ∀ (blocks : P2.Blocks) (devs : List (Nat × DS)),
+      (∃ ds y, lookupDev devs m = some ds ∧ GoodM pt m ds ∧ find ds e.name = some { e with triple := y }) →
+      ∃ ds y, lookupDev (applyBlocks (mixerBlock pt) devs blocks) m = some ds ∧ GoodM pt m ds ∧
+        find ds e.name = some { e with triple := y } := by
+  intro blocks
+  induction blocks with
+  | nil => intro devs h; exact h
+  | cons b rest ih =>
+    intro devs ⟨ds, y, hl, hg, hf⟩
+    obtain ⟨i, items⟩ := b
+    unfold applyBlocks
+    apply ih
+    by_cases hi : i = m
+    · subst hi
+      rw [lookupDev_updDev_self, hl]
+      simp only [Option.getD_some]
+      obtain ⟨hg', y', hf'⟩ := mixerBlock_stable pt i items ds hg { e with triple := y } hf
+      exact ⟨_, y', rfl, hg', hf'⟩
+    · rw [lookupDev_updDev_other _ _ (fun h => hi h.symm)]
+      exact ⟨ds, y, hl, hg, hf⟩
+
+theorem applyBlocks_id_lookup : ∀ (blocks : P2.Blocks) (devs : List (Nat × DS)) (m : Nat) (ds : DS),
+    lookupDev devs m = some ds → lookupDev (applyBlocks (fun _ _ ds => ds) devs blocks) m = some ds := by
+  intro blocks
+  induction blocks with
+  | nil => intro devs m ds h; exact h
+  | cons b rest ih =>
+    intro devs m ds h
+    obtain ⟨i, items⟩ := b
+    unfold applyBlocks
+    apply ih
+    by_cases hi : m = i
+    · subst hi; rw [lookupDev_updDev_self, h]; rfl
+    · rw [lookupDev_updDev_other _ _ hi]; exact h
+
+/-- **addressing_stable_mixer**: no event changes index or owner of a mixer parameter that exists
+(mixers never disappear: a mixer the controller stops reporting keeps its parameters) -/
+theorem addressing_stable_mixer (pt : Product) (w : World) (hw : WorldOK pt w) (ev : Event)
+    (m : Nat) (ds : DS) (e : Entry) (hl : lookupDev w.mixers m = some ds) (hf : find ds e.name = some e) :
+    ∃ ds' y, lookupDev (step pt w ev).1.mixers m = some ds' ∧ find ds' e.name = some { e with triple := y } := by
+  have hgood : GoodM pt m ds := hw.mix _ (lookupDev_mem hl)
+  have hsame : ∃ ds' y, lookupDev w.mixers m = some ds' ∧ find ds' e.name = some { e with triple := y } :=
+    ⟨ds, e.triple, hl, hf⟩
+  have happly : ∀ blocks, ∃ ds' y, lookupDev (applyMixers pt w.mixers blocks) m = some ds' ∧
+      find ds' e.name = some { e with triple := y } := by
+    intro blocks
+    obtain ⟨ds', y, h1, _, h3⟩ := applyBlocks_mixer_stable pt m e blocks w.mixers ⟨ds, e.triple, hl, hgood, hf⟩
+    exact ⟨ds', y, h1, h3⟩
+  cases ev with
+  | uid => simp only [step]; split; exact hsame; exact happly _
+  | ecomaxParams msg => simp only [step]; split <;> (try split) <;> exact hsame
+  | thermostatsAvailable n => exact hsame
+  | thermostatParams msg => simp only [step]; split <;> exact hsame
+  | schedules msg => simp only [step]; split <;> exact hsame
+  | state on => exact hsame
+  | mixerParams msg =>
+    simp only [step]
+    split
+    · exact hsame
+    · split
+      · exact happly _
+      · exact ⟨ds, e.triple, applyBlocks_id_lookup _ _ _ _ hl, hf⟩
+  | set dev name v =>
+    simp only [step]
+    split
+    · exact hsame
+    · next ds0 hds0 =>
+      split
+      · exact hsame
+      · next e1 hf1 =>
+        cases dev with
+        | ecomax => exact hsame
+        | thermostat i => exact hsame
+        | mixer i =>
+          simp only [World.ds] at hds0
+          by_cases hi : i = m
+          · subst hi
+            rw [hl] at hds0
+            simp only [Option.some.injEq] at hds0
+            subst hds0
+            refine ⟨setEntry ds { e1 with triple := { e1.triple with value := v } }, ?_⟩
+            have hlook : lookupDev (w.setDs (.mixer i) (setEntry ds { e1 with triple := { e1.triple with value := v } })).mixers i =
+                some (setEntry ds { e1 with triple := { e1.triple with value := v } }) := by
+              simp only [World.setDs, lookupDev]
+              have := find?_updMap w.mixers i i (fun _ => setEntry ds { e1 with triple := { e1.triple with value := v } })
+              rw [this]
+              simp only [lookupDev, Option.map_eq_some_iff] at hl
+              obtain ⟨p, hp, _⟩ := hl
+              have hpi : p.1 = i := by simpa using List.find?_some (p := fun (p : Nat × DS) => p.1 == i) hp
+              simp [hp, hpi]
+            by_cases hn : name = e.name
+            · subst hn
+              rw [hf] at hf1
+              cases hf1
+              exact ⟨_, hlook, find_setEntry_self ds _⟩
+            · refine ⟨e.triple, hlook, ?_⟩
+              rw [find_setEntry_ne _ _ (by
+                have : e1.name = name := (find_some hf1).2
+                simpa [this] using hn)]
+              exact hf
+          · refine ⟨ds, e.triple, ?_, hf⟩
+            simp only [World.setDs, lookupDev]
+            rw [find?_updMap w.mixers i m (fun _ => setEntry ds0 { e1 with triple := { e1.triple with value := v } })]
+            simp only [lookupDev, Option.map_eq_some_iff] at hl
+            obtain ⟨p, hp, hp2⟩ := hl
+            have hpt : p.1 = m := by simpa using List.find?_some (p := fun (p : Nat × DS) => p.1 == m) hp
+            have : ¬ p.1 = i := by rw [hpt]; exact fun h => hi h.symm
+            simp [hp, this, hp2]
+
+/-! the controller's own dataset holds four families (table parameters, schedule parameters, the
+control switch, the thermostat profile): their names never clash -/
+
+theorem disjoint_ecoP_sched : ∀ a ∈ Gen.ecomaxP, ∀ b ∈ Gen.scheduleParams, a.name ≠ b.name := by decide +kernel
+theorem disjoint_ecoI_sched : ∀ a ∈ Gen.ecomaxI, ∀ b ∈ Gen.scheduleParams, a.name ≠ b.name := by decide +kernel
+theorem sched_reserved : ∀ b ∈ Gen.scheduleParams,
+    b.name ≠ Gen.ecomaxControl.name ∧ b.name ≠ Gen.thermostatProfile.name := by decide +kernel
+theorem control_ne_profile : Gen.ecomaxControl.name ≠ Gen.thermostatProfile.name := by decide
+
+def ecoKind (k : TKind) : Prop := k ≠ .mixer ∧ k ≠ .thermostat
+
+/-- two descriptions of different families living in the controller's dataset have different names -/
+theorem cross_kind_names (pt : Product) {k k' : TKind} (hk : ecoKind k) (hk' : ecoKind k') (hne : k ≠ k')
+    {a b : Gen.Desc} (ha : a ∈ tableOf pt k) (hb : b ∈ tableOf pt k') : a.name ≠ b.name := by
+  have eco_mem : ∀ {x}, x ∈ tableOf pt .ecomax → x ∈ Gen.ecomaxP ++ Gen.ecomaxI := by
+    intro x hx; cases pt <;> simp only [tableOf] at hx <;> simp [hx]
+  have eco_sched : ∀ {x y}, x ∈ tableOf pt .ecomax → y ∈ Gen.scheduleParams → x.name ≠ y.name := by
+    intro x y hx hy
+    cases pt <;> simp only [tableOf] at hx
+    · exact disjoint_ecoP_sched x hx y hy
+    · exact disjoint_ecoI_sched x hx y hy
+  cases k <;> cases k' <;> simp only [tableOf, List.mem_singleton] at ha hb <;>
+    first
+    | exact absurd rfl hne
+    | exact absurd rfl hk.1
+    | exact absurd rfl hk.2
+    | exact absurd rfl hk'.1
+    | exact absurd rfl hk'.2
+    | exact eco_sched ha hb
+    | exact fun h => eco_sched hb ha h.symm
+    | (subst hb; exact (reserved_names a (eco_mem ha)).1)
+    | (subst hb; exact (reserved_names a (eco_mem ha)).2)
+    | (subst ha; exact fun h => (reserved_names b (eco_mem hb)).1 h.symm)
+    | (subst ha; exact fun h => (reserved_names b (eco_mem hb)).2 h.symm)
+    | (subst hb; exact (sched_reserved a ha).1)
+    | (subst hb; exact (sched_reserved a ha).2)
+    | (subst ha; exact fun h => (sched_reserved b hb).1 h.symm)
+    | (subst ha; exact fun h => (sched_reserved b hb).2 h.symm)
+    | (subst ha; subst hb; exact control_ne_profile)
+    | (subst ha; subst hb; exact fun h => control_ne_profile h.symm)
+
+def GoodE (pt : Product) (ds : DS) : Prop := ∀ x ∈ ds, EntryOK pt x ∧ OnEcomax x
+
+/-- in the controller's dataset, a parameter found under the name of a described position of family
+`k` is of the class that family's handler creates (so it is updated in place, never replaced) -/
+theorem ecomax_class (pt : Product) (k : TKind) (hk : ecoKind k) {old : DS} (hgood : GoodE pt old)
+    (d : Gen.Desc) (pos : Nat) (hd : (tableOf pt k)[pos]? = some d) (new : Entry)
+    (hnk : new.kind = k) (hns : new.switch = d.switch)
+    (e0 : Entry) (hf : find old d.name = some e0) : sameClass e0 new = true := by
+  obtain ⟨hm0, hn0⟩ := find_some hf
+  obtain ⟨⟨d0, hd0, hdn0, hsw0, _⟩, hk0m, hk0t, _⟩ := hgood e0 hm0
+  by_cases hkk : e0.kind = k
+  · rw [hkk] at hd0
+    have hidx : e0.index = pos := name_index_bijection pt k hd0 hd (by rw [hdn0, hn0])
+    rw [hidx, hd] at hd0
+    cases hd0
+    simp [sameClass, hkk, hnk, hns, hsw0]
+  · exact absurd (hdn0.trans hn0) (cross_kind_names pt ⟨hk0m, hk0t⟩ hk hkk (List.mem_of_getElem? hd0) (List.mem_of_getElem? hd))
+
+theorem find_filter_ne (ds : DS) (n m : String) (h : m ≠ n) :
+    find (ds.filter (fun x => !(x.name == n))) m = find ds m := by
+  simp only [find, List.find?_filter]
+  congr 1
+  funext a
+  by_cases ha : a.name = m
+  · subst ha; simp; exact h
+  · simp [ha]
+
+theorem applyItems_eco_stable (pt : Product) (k : TKind) (hk : ecoKind k)
+    (mk : Gen.Desc → Nat → P2.Triple → Entry) (skip : Bool)
+    (hmk : ∀ d pos t, (mk d pos t).name = d.name ∧ (mk d pos t).kind = k ∧ (mk d pos t).switch = d.switch ∧
+      (mk d pos t).index = pos ∧ (mk d pos t).devIndex = 0 ∧ (mk d pos t).offset = 0 ∧ (mk d pos t).size = d.size)
+    (items : P2.Params) (ds : DS) (hgood : GoodE pt ds) (e : Entry) (hf : find ds e.name = some e) :
+    GoodE pt (applyItems (tableOf pt k) mk skip ds ds items) ∧
+      ∃ y, find (applyItems (tableOf pt k) mk skip ds ds items) e.name = some { e with triple := y } := by
+  constructor
+  · exact applyItems_inv (P := fun x => EntryOK pt x ∧ OnEcomax x) (fun e t h => h)
+      (fun d pos t hd => by
+        obtain ⟨h1, h2, h3, h4, h5, h6, h7⟩ := hmk d pos t
+        exact ⟨⟨d, by rw [h2, h4]; exact hd, h1.symm, h3.symm, h7.symm⟩, by rw [h2]; exact hk.1, by rw [h2]; exact hk.2, h5, h6⟩)
+      hgood items ds hgood
+  · exact applyItems_stable (fun d pos t => (hmk d pos t).1)
+      (fun d pos t hd e0 hf0 => ecomax_class pt k hk hgood d pos hd _ (hmk d pos t).2.1 (hmk d pos t).2.2.1 e0 hf0)
+      e hf items ds ⟨e.triple, hf⟩
+
+theorem applyPendingEco_stable (pt : Product) (e : Entry) : ∀ (pending : List P2.Params) (ds : DS),
+    GoodE pt ds → (∃ y, find ds e.name = some { e with triple := y }) →
+    ∃ y, find (applyPendingEco pt ds pending) e.name = some { e with triple := y } := by
+  intro pending
+  induction pending with
+  | nil => intro ds _ h; exact h
+  | cons items rest ih =>
+    intro ds hg ⟨y, hy⟩
+    unfold applyPendingEco
+    obtain ⟨hg', y', hy'⟩ := applyItems_eco_stable pt .ecomax ⟨by decide, by decide⟩ mkEcomax true
+      (fun d pos t => ⟨rfl, rfl, rfl, rfl, rfl, rfl, rfl⟩) items ds hg { e with triple := y } hy
+    exact ih _ hg' ⟨y', hy'⟩
+
+/-- **addressing_stable_ecomax**: no event changes the index of a parameter held by the controller
+itself (table parameter, schedule switch / parameter, control switch, thermostat profile); the only
+way its name leaves the dataset is an undefined profile slot in a thermostat-parameters response -/
+theorem addressing_stable_ecomax (pt : Product) (w : World) (hw : WorldOK pt w) (ev : Event)
+    (e : Entry) (hf : find w.ecomax e.name = some e) :
+    (∃ y, find (step pt w ev).1.ecomax e.name = some { e with triple := y }) ∨
+    (e.kind = .profile ∧ find (step pt w ev).1.ecomax e.name = none) := by
+  have hgood : GoodE pt w.ecomax := hw.eco
+  have hsame : ∃ y, find w.ecomax e.name = some { e with triple := y } := ⟨e.triple, hf⟩
+  cases ev with
+  | uid =>
+    left; simp only [step]; split
+    · exact hsame
+    · exact applyPendingEco_stable pt e _ _ hgood hsame
+  | ecomaxParams msg =>
+    left; simp only [step]; split
+    · exact hsame
+    · split
+      · exact (applyItems_eco_stable pt .ecomax ⟨by decide, by decide⟩ mkEcomax true
+          (fun d pos t => ⟨rfl, rfl, rfl, rfl, rfl, rfl, rfl⟩) _ _ hgood e hf).2
+      · exact hsame
+  | mixerParams msg => left; simp only [step]; split <;> (try split) <;> exact hsame
+  | thermostatsAvailable n => exact .inl hsame
+  | state on =>
+    left
+    exact upsert_stable hf (fun hn => ecomax_class pt .control ⟨by decide, by decide⟩ hgood Gen.ecomaxControl 0
+      (by simp [tableOf]) _ rfl rfl e (by rw [← hn] at hf; exact hf)) hsame
+  | schedules msg =>
+    left; simp only [step]; split
+    · exact hsame
+    · exact hsame
+    · next ss ps _ _ =>
+      simp only [applyScheduleItems]
+      split
+      · exact (applyItems_eco_stable pt .schedule ⟨by decide, by decide⟩ mkSchedule true
+          (fun d pos t => ⟨rfl, rfl, rfl, rfl, rfl, rfl, rfl⟩) ps _ hgood e hf).2
+      · have : ∀ (l : P2.Params) (ds : DS), (∃ y, find ds e.name = some { e with triple := y }) →
+            ∃ y, find (l.foldl (fun ds it =>
+              match Gen.scheduleParams[it.1]? with
+              | some d => updateOnly w.ecomax ds (mkSchedule d it.1 it.2)
+              | none => ds) ds) e.name = some { e with triple := y } := by
+          intro l
+          induction l with
+          | nil => intro ds h; exact h
+          | cons it rest ih =>
+            intro ds h
+            simp only [List.foldl_cons]
+            apply ih
+            split
+            · exact updateOnly_stable hf h
+            · exact h
+        exact this _ _ hsame
+  | thermostatParams msg =>
+    simp only [step]
+    split
+    · exact .inl hsame
+    · exact .inl hsame
+    · next profile blocks _ _ =>
+      cases profile with
+      | some t =>
+        left
+        exact upsert_stable hf (fun hn => ecomax_class pt .profile ⟨by decide, by decide⟩ hgood Gen.thermostatProfile 0
+          (by simp [tableOf]) _ rfl rfl e (by rw [← hn] at hf; exact hf)) hsame
+      | none =>
+        by_cases hn : e.name = Gen.thermostatProfile.name
+        · right
+          obtain ⟨hm0, _⟩ := find_some hf
+          obtain ⟨⟨d0, hd0, hdn0, _, _⟩, hkm, hkt, _⟩ := hgood e hm0
+          refine ⟨?_, ?_⟩
+          · by_cases hkp : e.kind = .profile
+            · exact hkp
+            · exact absurd (hdn0.trans hn) (cross_kind_names pt ⟨hkm, hkt⟩ ⟨by decide, by decide⟩ hkp
+                (List.mem_of_getElem? hd0) (by simp [tableOf]))
+          · simp only [find, hn]
+            rw [List.find?_eq_none]
+            intro x hx
+            have := (List.mem_filter.mp hx).2
+            simpa using this
+        · left
+          exact ⟨e.triple, by rw [find_filter_ne _ _ _ hn]; exact hf⟩
+  | set dev name v =>
+    left
+    simp only [step]
+    split
+    · exact hsame
+    · next ds0 hds0 =>
+      split
+      · exact hsame
+      · next e1 hf1 =>
+        cases dev with
+        | mixer i => exact hsame
+        | thermostat i => exact hsame
+        | ecomax =>
+          simp only [World.ds, Option.some.injEq] at hds0
+          subst hds0
+          simp only [World.setDs]
+          by_cases hn : name = e.name
+          · subst hn
+            rw [hf] at hf1
+            cases hf1
+            exact ⟨_, find_setEntry_self _ _⟩
+          · refine ⟨e.triple, ?_⟩
+            rw [find_setEntry_ne _ _ (by
+              have : e1.name = name := (find_some hf1).2
+              simpa [this] using hn)]
+            exact hf
+
 /-! ### payload bytes -> decoded list -> dataset -> request, end to end
 
 A well-formed parameters payload is one produced by C05's encoders (`P2.encodeEcomax`,
